@@ -14,7 +14,7 @@ class C04(Prop):
             "the lost-wake-up oracle looks at the quiescent end of each implementation trace")
     trusted_base = ["task semantics of the harness executor: a stream is polled, parks on Pending, is re-polled once its waker was invoked (wake and the parked look at `notified` are scheduling points) - the documented Waker contract, not tokio itself",
                     "modelled, not verified here: crossbeam / zero-copy Uni channels and the Multi channels (wake rules differ); a send_with_async whose setter suspends (C20)"]
-    assumptions = ["each stream is driven by exactly one task", "no stream is dropped during the run"]
+    assumptions = ["each stream is driven by exactly one task (which may hand it a different waker at some polls: 'waker_switch' suites, oracle only - the model and the theorem take one waker per stream)", "no stream is dropped during the run"]
     def suites(self, tier, rng):
         n = 150 if tier == "quick" else 3000
         at = [unigen.parse_case_line(F1), unigen.parse_case_line(F13), unigen.parse_case_line(F15)] + [unigen.gen_case(rng, "move_atomic", profile="drive", tail_rounds=60) for _ in range(n)]
@@ -24,7 +24,9 @@ class C04(Prop):
         fa = [unigen.gen_entry_case(rng, "move_full_sync", reserve_ok=False) for _ in range(n // 3)]
         return [Suite("uni_move_full_sync", unigen.HEADER, fs), Suite("uni_move_atomic", unigen.HEADER, at),
                 Suite("uni_move_atomic_entry_points", unigen.XHEADER, en), Suite("uni_move_full_sync_async", unigen.HEADER, fa)
-                ] + unigen.oracle_only_suites(rng, n // 2, profile="drive", tail_rounds=60)
+                ] + unigen.oracle_only_suites(rng, n // 2, profile="drive", tail_rounds=60) + [
+                Suite("waker_switch_%s(oracle only)" % ch, unigen.HEADER, [unigen.gen_waker_switch_case(rng, ch) for _ in range(n // 5)], compare=False)
+                for ch in ("move_full_sync", "move_atomic", "zc_atomic", "zc_full_sync", "crossbeam")]
     def oracle(self, case, recs):
         return unigen.oracle_lost_wakeup(case, recs)
     def nontrivial(self, case, recs):
